@@ -32,6 +32,9 @@ def main(argv):
             mod.replay(desc['case'], ctx)
         else:
             mod.run_shard(desc, ctx)
+    except core.ShardCutShort as e:
+        status = 'cut-short'
+        err = str(e)
     except BaseException:            # harness bug or watchdog: inconclusive, never a verdict
         status = 'error'
         err = traceback.format_exc()
